@@ -9011,8 +9011,8 @@ def FillUnitDatabaseWithPosc(
     f_unit_to_base = MakeCustomaryToBase(0.0, 0.000000000001, 1.0, 0.0)
     f_base_to_unit = MakeBaseToCustomary(0.0, 0.000000000001, 1.0, 0.0)
     db.AddUnit("time", "picosecond", "ps", f_base_to_unit, f_unit_to_base, default_category=None)
-    f_unit_to_base = MakeCustomaryToBase(0.0, 0.000000001, 1.0, 0.0)
-    f_base_to_unit = MakeBaseToCustomary(0.0, 0.000000001, 1.0, 0.0)
+    f_unit_to_base = MakeCustomaryToBase(0.0, 0.000000000001, 1.0, 0.0)
+    f_base_to_unit = MakeBaseToCustomary(0.0, 0.000000000001, 1.0, 0.0)
     db.AddUnit(
         "electric conductance",
         "picosiemens",
